@@ -646,21 +646,33 @@ func (cl *Client) apply(e *pbsubscribe.Event, item M) error {
 	return update(eventsFromEvent(e), e.Index)
 }
 
-// Next calls the real Subscription.Next once and applies the delivery like the materializer.
-// The context is cancelled iff nothing is buffered, so the call never blocks and never races.
+// Next calls the real Subscription.Next and applies the delivery like the materializer.
 func (w *W) Next(c M) (M, error) {
 	cl := w.Cl[int(toU(c["c"]))-1]
 	if !cl.live {
 		return nil, fmt.Errorf("client %v has no subscription", c["c"])
 	}
-	pend, perr := cl.sub.VerifPending()
-	ctx, cancel := context.WithTimeout(context.Background(), 20*time.Second)
-	defer cancel()
-	open := cl.sub.VerifState() == 0
-	if open && len(pend) == 0 && perr == nil {
-		cancel()
+	// The context is already cancelled, so Next can never block. Its select may then prefer the
+	// cancellation over an available item (or give up after passing over items it does not deliver);
+	// in that case nothing was delivered and the call is simply repeated. "blocked" is recorded only
+	// when nothing is buffered any more, so the recorded outcome does not depend on the select.
+	ctx, cancel := context.WithCancel(context.Background())
+	cancel()
+	var ev stream.Event
+	var err error
+	for tries := 0; ; tries++ {
+		ev, err = cl.sub.Next(ctx)
+		if !errors.Is(err, context.Canceled) {
+			break
+		}
+		pend, perr := cl.sub.VerifPending()
+		if len(pend) == 0 && perr == nil {
+			break
+		}
+		if tries > 100000 {
+			return nil, fmt.Errorf("Next keeps returning context.Canceled although %d items are buffered", len(pend))
+		}
 	}
-	ev, err := cl.sub.Next(ctx)
 	res := M{}
 	switch {
 	case errors.Is(err, stream.ErrACLChanged):
@@ -671,8 +683,6 @@ func (w *W) Next(c M) (M, error) {
 		res = M{"k": "closed", "why": "shutdown"}
 	case errors.Is(err, context.Canceled):
 		res = M{"k": "blocked"}
-	case errors.Is(err, context.DeadlineExceeded):
-		return nil, fmt.Errorf("Next blocked although %d items were pending", len(pend))
 	case err != nil:
 		res = M{"k": "err", "msg": err.Error()}
 	default:
